@@ -536,6 +536,7 @@ async fn exec_op(env: &Arc<Env>, c: u16, i: u16, op: Op, slots: &mut Vec<Slot>) 
             begin(c, i, OpK::SpawnActor, Hk::None, Path::NA, d.tag, 0, 0, decl as u64);
             let sp = spawn_decl(&d);
             let mut first = u16::MAX;
+            let obj = sp.obj;
             if let Some(o) = sp.owning {
                 first = push(slots, Slot::mk(H::Owning(o), d.tag, c));
                 drop(sp.addr);
@@ -544,7 +545,11 @@ async fn exec_op(env: &Arc<Env>, c: u16, i: u16, op: Op, slots: &mut Vec<Slot>) 
             } else {
                 push(slots, Slot::empty());
             }
-            end(c, i, Res::Handle { slot: first, some: first != u16::MAX });
+            if first != u16::MAX {
+                end(c, i, Res::Inst { obj, actor: u32::MAX, slot: first });
+            } else {
+                end(c, i, Res::Handle { slot: first, some: false });
+            }
         }
         Op::Fork { ops, moved } => {
             let nc = env.next_client.fetch_add(1, Ordering::SeqCst);
